@@ -530,7 +530,11 @@ func (cx *Ctx) checkMetadataOfThisRequest(r *Report) {
 		if len(sites) == 0 {
 			r.Fail("R-VFG", "metadata:entityID", "", "the metadata document gets no entityID")
 		} else {
-			r.checkSources("R-VFG", "metadata:entityID", w.InstrPos(sites[0]), vm.Deep(ls), entityIDSources, []string{"ext:iface:context.Context.Value#0"}, false)
+			// ... from the same endpoint object the protocol responses take their Issuer from: the IdentityProvider's
+			// (the Provider keeps a metadata endpoint of its own; a document named after that one and responses named
+			// after the other disagree as soon as the two copies differ)
+			metaEntitySources := []string{"ext:iface:context.Context.Value#0", "const:*", "param:*/#0.identityProvider.metadataEndpoint.*"}
+			r.checkSources("R-VFG", "metadata:entityID", w.InstrPos(sites[0]), vm.Deep(ls), metaEntitySources, []string{"ext:iface:context.Context.Value#0", "param:*/#0.identityProvider.metadataEndpoint.*"}, false)
 		}
 		lc, cs := vm.CallArgSources(matchFnKey(w, "provider.(*Provider).GetMetadata"), 1)
 		if len(cs) > 0 {
